@@ -311,3 +311,26 @@ PROPS["C15"] = dict(
     rule="cases: every text of <= MaxText chars over {LF, CR, 'a', U+1F60D} x every history of Depth requests over get_line(0..MaxText+1), line_count, lines (TLC), every (line, c, n) slice with c, n in {0..3, u32::MAX}; seeded texts of up to ~200 chars (2/3/4-byte characters, CR/LF mixes) with up to 50 requests incl. extreme slices; distinct = distinct (op, args) ; non-trivial = text of >= 2 characters",
     assumptions=COMMON_ASSUMPTIONS,
 )
+
+PROPS["C16"] = dict(
+    level="model_checking",
+    level_text="SourceViewConc.tla models the shared view (mutex with poisoning, atomic progress counter, cache) with one action per step of get_line/line_count. TLC explores every interleaving: the current single-acquisition algorithm satisfies Safe (every answer = sequential oracle, no panic), LockDiscipline and Progress; the pinned split algorithm must be (and is) refuted by TLC (sensitivity self-test). Every interleaving of the split algorithm's steps is dumped as a thread schedule and replayed on real threads sharing one SourceView, hook H1's yield points parking each thread until the scheduler hands it the turn; results, panics and deadlock are judged by TLC against the sequential oracle. Free-running stress on real threads is judged the same way.",
+    level_note="relaxed loads are modelled as reading the current value; the real threads run on x86 under a serialising scheduler, so weak-memory effects are not explored; a replay step that does not return within 20 ms is treated as 'blocked on the mutex' and the scheduler moves on (no verdict is drawn from it); the yield sequence is never compared, only results",
+    technique="TLA+ concurrent model with explicit Panic/poison transitions, TLC exhaustive interleavings + Buggy-config self-test, schedule replay on real threads via guarded yield hooks, trace validation against the sequential oracle",
+    mc=[
+        dict(module="MC_SVConc", cfg="MC_SVConc_current_quick.cfg", tiers=("quick",), workers=8, gen=False),
+        dict(module="MC_SVConc", cfg="MC_SVConc_buggy.cfg", tiers=("quick", "thorough"), workers=4, gen=False, expect="Safe"),
+        dict(module="MC_SVConc", cfg="MC_SVConc_gen_quick.cfg", tiers=("quick",), workers=8),
+        dict(module="MC_SVConc", cfg="MC_SVConc_current_thorough.cfg", tiers=("thorough",), workers=14, gen=False, timeout=3400, heap="24g"),
+        dict(module="MC_SVConc", cfg="MC_SVConc_gen_thorough.cfg", tiers=("thorough",), workers=14, timeout=3400, heap="24g"),
+        dict(module="MC_SVConc", cfg="MC_SVConc_gen3_thorough.cfg", tiers=("thorough",), workers=14, timeout=3400, heap="24g"),
+    ],
+    trace="Trace_C16",
+    drive=dict(quick=dict(n=400, size=3), thorough=dict(n=8000, size=5)),
+    nontrivial=lambda e: e["op"] != "end" and len(e["args"]["text"]) >= 1,
+    corrupt=_corrupt_c15,
+    corruptible=lambda e: e["op"] != "end",
+    rule="cases: every interleaving (TLC, no VIEW: the schedule is part of the state) of 2 threads x 1 call (quick) / 2 threads x <=2 calls and 3 threads x 1 call (thorough) over get_line(0..2) and line_count on texts with 0..3 lines, replayed as thread schedules on real threads; seeded: 2..4 threads x 1..3 calls (get_line, line_count, lines) under random schedules and free-running; distinct = distinct (call, text, thread); non-trivial = non-empty text",
+    assumptions=COMMON_ASSUMPTIONS + ["hook H1 (cfg sourcemap_verif): three yield points in SourceView::get_line calling a thread-local callback; add-only, no-op without a callback"],
+)
+HOOK_COMMITS.append("59fd72d")
